@@ -40,28 +40,28 @@ CLAIMED = {
     ),
     "C12": dict(
         category="exploration",
-        text="Seeded histories interleaving Parameter/VectorParameter updates with solves (method switches), evaluations and calls of long-lived compiled callables (value, gradient, Jacobian, Hessian, CompiledExpression, dict function, symbolic gradient); parameters in 8 placements; recursion-threshold and LRU-size knobs put the same models on the iterative code paths. Each observation equals R1 (fresh model, fresh Parameters at current values, pristine process; tight) and R2 (parameters as Constants; tight pointwise, 5e-3 on optimal objective values of strictly convex members).",
+        text="Seeded histories interleaving Parameter/VectorParameter updates with solves (method switches), evaluations and calls of long-lived compiled callables (value, gradient, Jacobian, Hessian, CompiledExpression, dict function, symbolic gradient); parameters in 9 placements, written as Python numbers or in a NumPy dtype (float16/float32/int8/int32/bool); recursion-threshold and LRU-size knobs put the same models on the iterative code paths. Each observation equals R1 (fresh model, fresh Parameters at current values, pristine process; tight) and R2 (parameters as Constants; tight pointwise, 5e-3 on optimal objective values of strictly convex members).",
         design_ref="DESIGN.md §5/C12, §3.4",
         note=_TRUST,
         technique="deterministic simulation: seeded history machine vs pristine-process reference model",
     ),
     "C18": dict(
         category="exploration",
-        text="Two parts. (1) Simulation: the C13 edit/solve history machine on pools with integer/binary variables and strict solves; 'raises before any solver runs' is checked as an ordering over seam events (zero solver entries and zero callbacks before the raise), also on problems reached by editing a solved problem (cached variable list / LP data); the relaxation clause uses a pristine-process solve of the same shadow state with continuous domains, compared tightly incl. the data handed to the solver; warnings are observed under Python's default once-per-location registry with every solve issued from its own call site (or, for some, from one shared call site like a line in a loop). (2) Plain enumeration, labelled as such: declaration route x domain x model x method x strict, plus domain and [0,1] bounds of every element through every route.",
+        text="Two parts. (1) Simulation: the C13 edit/solve history machine on pools with integer/binary variables and strict solves; 'raises before any solver runs' is checked as an ordering over seam events (zero solver entries and zero callbacks before the raise), also on problems reached by editing a solved problem (cached variable list / LP data); the relaxation clause uses a pristine-process solve of the same shadow state with continuous domains, compared tightly incl. the data handed to the solver; warnings are observed under Python's default once-per-location registry with every solve issued from its own call site (or, for some, from one shared call site like a line in a loop), whose namespace is a bare dict or looks like the __main__ of `python -c`, of a script or of a notebook cell; a relaxed solve that raises although its all-continuous twin returns is a finding. (2) Plain enumeration, labelled as such: declaration route x domain x model x method x strict, plus domain and [0,1] bounds of every element through every route.",
         design_ref="DESIGN.md §5/C18",
         note=_TRUST + " The route x method product is enumeration, not simulation.",
         technique="deterministic simulation: solver-entry spy + history machine (plus an enumerated route x method table)",
     ),
     "C20": dict(
         category="fault_enumeration",
-        text="Fault injection at the solver seam: an exception from {ValueError, FloatingPointError, MemoryError, KeyboardInterrupt} raised at solver entry, instead of the k-th objective/gradient/constraint/Jacobian/Hessian callback, part-way inside the k-th callback (at the j-th line executed in optyx's compiled closures), or after SciPy returned; for the enumerated scenarios EVERY site 1..K (K from a fault-free dry run) x every class is injected; seeded runs add double faults, faults inside increased_recursion_limit, scripted callback orders and the SLSQP->trust-constr retry entry. Oracles: FAILED-or-propagate when the exception left the solver; showwarning hook identity and recursion limit after every operation; every later solve equals the pristine-process baseline.",
+        text="Fault injection at the solver seam: an exception from {ValueError, FloatingPointError, MemoryError, KeyboardInterrupt} raised at solver entry, instead of the k-th objective/gradient/constraint/Jacobian/Hessian callback, part-way inside the k-th callback (at the j-th line executed in optyx's compiled closures), or after SciPy returned; for the enumerated scenarios EVERY site 1..K (K from a fault-free dry run) x every class is injected; seeded runs add double faults, faults inside increased_recursion_limit, scripted callback orders and the SLSQP->trust-constr retry entry. Oracles: FAILED-or-propagate when the exception left the solver; showwarning hook identity, warnings.filters (same list, same entries) and recursion limit after every operation; every later solve equals the pristine-process baseline.",
         design_ref="DESIGN.md §5/C20",
         note=_TRUST + " Fault model is the property's (solver or callback raises, also part-way inside a callback); exceptions landing in optyx's solver-module frames outside a callback are not injected.",
         technique="deterministic simulation: fault enumeration at the solver seam + recovery vs pristine-process baseline",
     ),
     "C14": dict(
         category="exploration",
-        text="Seeded histories with a target model and an adversarial prefix of models reusing its variable/parameter names (other values, bounds, domains, structure, bare leaves as cache keys), drop+gc for id reuse, floods past LRU capacity (knob-shrunk in quick, default 1024/4096 in thorough). Every observation on every model equals the same observation on that model alone in a pristine forked process.",
+        text="Seeded histories with a target model and an adversarial prefix of models reusing its variable/parameter names (other values, bounds, domains, structure, bare leaves as cache keys), drop+gc for id reuse, floods past LRU capacity (knob-shrunk in quick, default 1024/4096 in thorough), and an enumerated prefix-length sweep (every number k = 0..400 of throw-away compilations over k distinct variable orderings between an adversary and the target). Every observation on every model equals the same observation on that model alone in a pristine forked process.",
         design_ref="DESIGN.md §5/C14",
         note=_TRUST,
         technique="deterministic simulation: seeded history machine with adversarial prefixes vs pristine-process reference",
